@@ -1119,3 +1119,63 @@ def r_user_i64_arith(cx):
                   "`stack unroll=1e19,-1` overflows (a panic in a debug build)" % (name, "-" if op == "Sub" else "+"),
                   cx.where(s.get("span")))
     cx.count("R-USER-I64-ARITH", "i64_operations", n)
+
+
+@rule("R-ARRAY-INDEX-GUARD", ["C09", "C16"])
+def r_array_index_guard(cx):
+    """Where the code that takes user text apart (math::angular, op::, token::) writes into or reads from a fixed-size
+    array at a computed position - the degrees / minutes / seconds slots of parse_sexagesimal, say - the position is
+    known to be below the array's length: by a dominating comparison with a constant not above the length, or because it
+    is the induction value of a range / list that stays below it. `if i <= 3 { dms[i] = v }` on a three-element array
+    panics for a fourth `:`-separated field instead of rejecting the value."""
+    import guards
+    import pertuple
+
+    def cint(t):
+        t = mir.strip_refs(t)
+        return t[2] if t[0] == "const" and isinstance(t[2], int) else None
+    n = 0
+    for name in sorted(cx.f.lib["fns"]):
+        if "::tests::" in name or not name.startswith(("math::angular::", "op::", "token::", "<T as token::")):
+            continue
+        f = cx.f.fn(name)
+        k = 0
+        for bb in sorted(f.reachable()):
+            t = f.term(bb)
+            if t["k"] != "assert" or t.get("msg") != "BoundsCheck":
+                continue
+            ln = cint(f.operand(t["len"], f.end_point(bb)))
+            if ln is None:
+                continue
+            idx = mir.strip_refs(f.operand(t["index"], f.end_point(bb)))
+            if cint(idx) is not None:
+                continue
+            n += 1
+            ok = False
+            for at, tv in guards.branch_facts(f, bb):
+                at = mir.strip_refs(at)
+                if at[0] == "bin" and mir.strip_refs(at[2]) == idx and cint(at[3]) is not None:
+                    c = cint(at[3])
+                    if (at[1] == "Lt" and tv and c <= ln) or (at[1] == "Le" and tv and c <= ln - 1) or \
+                            (at[1] == "Ge" and not tv and c <= ln) or (at[1] == "Gt" and not tv and c <= ln - 1):
+                        ok = True
+            for lp in f.loops():
+                if bb in lp.body and idx in pertuple.induction_terms(f, lp):
+                    x = pertuple.iterator_entry_value(f, lp)
+                    if x is None:
+                        continue
+                    x = mir.strip_refs(x)
+                    if x[0] == "call" and isinstance(x[1], str) and x[1].endswith("into_iter") and x[2]:
+                        x = mir.strip_refs(x[2][0])
+                    if x[0] == "agg" and "Range" in str(x[1]) and len(x[2]) == 2 and cint(x[2][1]) is not None and cint(x[2][1]) <= ln:
+                        ok = True
+                    if x[0] == "agg" and x[1] == "array" and all(cint(e) is not None and 0 <= cint(e) < ln for e in x[2]):
+                        ok = True
+            cx.ob("R-ARRAY-INDEX-GUARD", "%s/index%d" % (name, k), ok,
+                  "%s: the computed position in the %d-element array is known to be below %d" % (name, ln, ln) if ok else
+                  "%s indexes a %d-element array at a computed position (%s) that the tests before it do not keep below %d: "
+                  "the access panics for user text with more parts than the array has slots" % (
+                      name, ln, mir.show(idx, maxd=2)[:50], ln), cx.where(t["span"]))
+            k += 1
+    cx.ob("R-ARRAY-INDEX-GUARD", "summary", True, "%d computed positions in fixed arrays examined" % n, nontrivial=False)
+    cx.count("R-ARRAY-INDEX-GUARD", "sites", n)
